@@ -50,6 +50,24 @@ CHECKS = {
              'run). The floating-point rounding amplification of the geometric case is outside the claim.',
         technique=TECH + ' (QF_UFLRA/QF_NRA) and z3 floating-point theory (QF_FP) on the same trace',
         design='3/C13'),
+    'C15': dict(
+        text='Bounded solver verdict on the real Fornberg recursion: fd_weights_all executed on fully symbolic nodes and x0 '
+             '(m<=4) and on concrete rational node sets with symbolic x0 and a symbolic polynomial (m<=14, six node families): '
+             'every row k satisfies the Lagrange-derivative moment identities for all nodes / x0 / coefficients; fd_weights is '
+             'row n; n>=len(x) raises ValueError.',
+        note='Trusted: z3 polynomial arithmetic (simplify + nlsat); exact arithmetic (rounding scaled by node conditioning is '
+             'outside the claim); nodes pairwise distinct. Trace validated against the float library per node set.',
+        technique=TECH + ' (polynomial identities, QF_NRA)',
+        design='3/C15'),
+    'C16': dict(
+        text='Bounded solver verdict on the real fd_derivative: samples of a symbolic polynomial of degree 2*(n//2+m) on exact '
+             'rational grids (uniform / non-uniform, increasing / decreasing, N up to 2mm+6, 24 thorough) and on fully symbolic '
+             'grids for (n,m)=(1,1): every output index (both boundary blocks and the interior window) equals the exact n-th '
+             'derivative for all coefficients; output length; degree 2mm+2 twin; misuse guards.',
+        note='Trusted: z3 (linear / polynomial identities); exact arithmetic on exact rational grid constants; trace validated '
+             'against the float library for every grid.',
+        technique=TECH + ' (QF_LRA / QF_NRA identities)',
+        design='3/C16'),
 }
 
 NOT_APPLICABLE = {
